@@ -32,7 +32,7 @@ BASE = dict(N=2, PR=2, MinStake=2, MaxVals=1, UnstakeTime=1, Window=2, MinSigned
             JailDur=1, MaxEvAge=1, FracDen=4, FracDS=2, FracDT=1, Fee=1, GenBal=(9, 9), GenVals=set(),
             DaoTokens=3, Dev=set(), Amts={2, 4}, Dts={1}, BurnNums={2}, MaxHeight=3, MaxTx=2, MaxExt=0,
             EvOn=False, MissOn=False, BadTxOn=False, Kinds={"stake", "unstake"}, SendTos={1}, Props={1},
-            AwardTos={1}, EvPowers={1}, EvUnknown=False, MaxRO=0, ParamOwner=1, ParamVals={1, 2}, GenExported=False, GenPrev=(-1, -1))
+            AwardTos={1}, EvPowers={1}, EvUnknown=False, MaxRO=0, ParamOwner=1, ParamVals={1, 2}, GenExported=False, GenPrev=(-1, -1), MaxExports=0)
 
 
 def cfg(**over):
@@ -90,6 +90,9 @@ PROFILES = {
         "mcT": [cfg(N=2, Kinds=ALLK, SendTos={4}, Amts={2, 4}, MaxExt=1, AwardTos={1}, BurnNums={1, 4}, MaxHeight=3, MaxTx=2, EvOn=True, EvPowers={1})],
         "sim": [cfg(N=3, GenBal=(9, 9, 9), GenVals=gv((1, 4), (2, 2)), MaxVals=2, UnstakeTime=2, Kinds=ALLK, SendTos={1, 5}, Amts={1, 2, 3, 4}, MaxExt=2,
                     AwardTos={1, 2, 5}, BurnNums={1, 2, 4}, Props={0, 1, 2}, MaxHeight=7, MaxTx=3, EvOn=True, MissOn=True, EvPowers={1, 2, 9}),
+                # export / import restart (the pool is re-funded by InitGenesis from the exported validators)
+                cfg(N=3, GenBal=(9, 9, 9), GenVals=gv((1, 4), (2, 4)), MaxVals=3, UnstakeTime=2, Kinds={"stake", "unstake"}, Amts={2}, MaxHeight=5, MaxTx=2, Dts={1}, MaxExports=1,
+                    EvOn=True, EvPowers={1}),
                 # the same read from an EXPORTED genesis (previous-state powers given)
                 cfg(N=3, GenBal=(9, 9, 9), GenVals=gv((1, 4), (2, 4), (3, 2, 1, False, 2)), GenExported=True, GenPrev=(2, 2, -1), MaxVals=3, UnstakeTime=2, Kinds={"stake", "unstake"}, Amts={2},
                     MaxHeight=4, MaxTx=2, Dts={1}),
@@ -108,6 +111,9 @@ PROFILES = {
                 # validator 3 is staked but below the cut-off and therefore absent from them)
                 cfg(N=3, GenBal=(9, 9, 9), GenVals=gv((1, 6), (2, 4), (3, 2)), GenExported=True, GenPrev=(3, 2, -1), MaxVals=2, Amts={2, 4}, Kinds={"stake", "unstake"},
                     MaxHeight=5, MaxTx=2, MissOn=True, Window=2),
+                # export / import restart between blocks
+                cfg(N=3, GenBal=(9, 9, 9), GenVals=gv((1, 6), (2, 4), (3, 2)), MaxVals=2, Amts={2, 4}, Kinds={"stake", "unstake", "unjail"}, MaxHeight=6, MaxTx=2, MissOn=True, Window=2,
+                    MaxExports=1, UnstakeTime=2),
                 # MaxValidators changed by governance between blocks (below and above the number of candidates)
                 cfg(N=4, GenBal=(9, 9, 9, 9), GenVals=gv((1, 6), (2, 4), (3, 4), (4, 2)), MaxVals=2, Amts={2, 4}, Kinds={"setparam", "stake", "unstake"}, ParamVals={1, 2, 3, 4},
                     MaxHeight=7, MaxTx=3, MissOn=True, Window=2)],
@@ -122,6 +128,8 @@ PROFILES = {
                 # the minimum stake itself is changed by governance (MinStakeHeld is then suspended; everything else still conforms)
                 cfg(N=3, GenBal=(9, 9, 9), GenVals=gv((1, 4), (2, 2)), MaxVals=3, UnstakeTime=1, Amts={2, 3}, Kinds={"setparam", "stake", "unstake", "unjail"}, ParamVals={2},
                     MaxHeight=6, MaxTx=3, Dts={1}, MissOn=True, Window=1, MinSignedNum=1, MinSignedDen=1, FracDT=2),
+                # export / import restart while validators are unstaking
+                cfg(N=3, GenBal=(9, 9, 9), GenVals=gv((1, 4), (2, 4), (3, 2)), MaxVals=3, UnstakeTime=3, Amts={2}, Kinds={"stake", "unstake"}, MaxHeight=6, MaxTx=3, Dts={0, 1}, MaxExports=1),
                 # an exported genesis: one validator already unstaking (queued at its completion time), previous-state powers given
                 cfg(N=3, GenBal=(9, 9, 9), GenVals=gv((1, 4), (2, 4), (3, 2, 1, False, 2)), GenExported=True, GenPrev=(2, 2, -1), MaxVals=3, UnstakeTime=2, Amts={2}, Kinds={"stake", "unstake"},
                     MaxHeight=5, MaxTx=3, Dts={0, 1}),
@@ -147,6 +155,9 @@ PROFILES = {
                     MaxHeight=16, JailDur=1, FracDT=1, Dts={1}),
                 cfg(N=2, GenBal=(9, 9), GenVals=gv((1, 8), (2, 8)), MaxVals=2, Kinds={"unjail"}, MaxTx=1, MissOn=True, Window=4, MinSignedNum=3, MinSignedDen=4,
                     MaxHeight=14, JailDur=0, FracDT=1, FracDen=8),
+                # the chain is stopped, exported and restarted from the export in the middle of the vote history
+                cfg(N=2, GenBal=(9, 9), GenVals=gv((1, 8), (2, 8)), MaxVals=2, Kinds={"unjail"}, MaxTx=1, MissOn=True, Window=4, MinSignedNum=1, MinSignedDen=2,
+                    MaxHeight=12, JailDur=0, FracDT=1, FracDen=8, MaxExports=1),
                 # fraction * window = 1.5 (rounds half-even to 2) and 4.9 (rounds to 5): truncation would differ
                 cfg(N=2, GenBal=(9, 9), GenVals=gv((1, 8), (2, 8)), MaxVals=2, Kinds={"unjail"}, MaxTx=1, MissOn=True, Window=3, MinSignedNum=1, MinSignedDen=2,
                     MaxHeight=12, JailDur=0, FracDT=1, FracDen=8),
@@ -158,6 +169,9 @@ PROFILES = {
                    MinSignedNum=1, MinSignedDen=1, MaxHeight=4, JailDur=2, Dts={1})],
         "sim": [cfg(N=3, GenBal=(9, 9, 9), GenVals=gv((1, 6), (2, 4), (3, 2)), MaxVals=2, Kinds={"unjail", "unstake", "stake"}, Amts={2, 3}, MaxTx=3, MissOn=True, EvOn=True, EvPowers={1, 2},
                     Window=2, MinSignedNum=1, MinSignedDen=2, MaxHeight=10, JailDur=2, Dts={0, 1, 2, 3}, FracDen=8, FracDT=1, FracDS=2),
+                # export / import restart with jailed and tombstoned validators
+                cfg(N=3, GenBal=(9, 9, 9), GenVals=gv((1, 6), (2, 4), (3, 4)), MaxVals=3, Kinds={"unjail", "unstake", "stake"}, Amts={2, 4}, MaxTx=2, MissOn=True, EvOn=True, EvPowers={1},
+                    Window=2, MaxHeight=7, JailDur=2, UnstakeTime=2, Dts={1, 2}, MaxExports=1),
                 # a genesis (as exported from a running chain) holding a jailed unstaking validator and consistent previous-state powers
                 cfg(N=3, GenBal=(9, 9, 9), GenVals=gv((1, 6), (2, 4), (3, 4, 1, True, 3)), GenExported=True, GenPrev=(3, 2, -1), MaxVals=3, Kinds={"unjail", "unstake", "stake"}, Amts={2, 4},
                     MaxTx=3, MissOn=True, EvOn=True, EvPowers={1, 2}, Window=2, MaxHeight=7, JailDur=2, UnstakeTime=2, Dts={0, 1, 2})],
